@@ -75,6 +75,7 @@ Separate Extraction
   ShellDQ.read
   ShellDQ.read_list
   ShellDQ.admissibleb
+  ShellDQ.outside_known_class
   Tables.all_tables
   Tables.valid_orders
   Tables.isomorphic_to
